@@ -7,3 +7,8 @@ CHECKS["C04"] = ("exploration",
   "Every history of stack operations up to the length bound over a 17-operation alphabet is executed against the real Populations (inside a State, including the utility components) and a plain Vec<Vec<_>> model in lock-step, with every read accessor probed after every step; long random histories with shrinking extend this beyond the bound. Absence beyond the explored histories is not established.",
   "Trusts the harness model (Vec<Vec<(tag, objective)>>) and the tag-in-coordinate-0 identification of individuals; rotate(0) and rotate(n > height) are outside the stated domain.",
   "DESIGN.md §6 C04")
+CHECKS["C01"] = ("exploration",
+  "model-based testing: bounded-exhaustive + proptest operation histories against a stack-of-maps reference model",
+  "All operation histories up to length 4 over a 26-operation alphabet (and up to length 6 over a reduced one in the thorough tier) plus long random histories with nested with_inner_state sub-histories are executed against the real registry and a Vec<BTreeMap> model in lock-step; after every step every type is probed at every scope level. A counterexample is shrunk to a minimal history. Absence beyond the explored histories is not established.",
+  "Trusts the reference model; type universe = 4 harness types with integer payload; borrow-conflict behaviour is C02's subject and not exercised here.",
+  "DESIGN.md §6 C01")
